@@ -356,6 +356,56 @@ pub fn c20() -> i32 {
             samples.push(format!("{}: accepted when consistent; rejected with each of {} free clusters leaked", name, positions.len()));
         }
     }
+    // ---- every assignment of cluster kinds to four neighbouring guest clusters x layouts (API) ----
+    // (compressed streams share host clusters; with refcount structures last the shared cluster
+    // lies between other used clusters)
+    let kinds_all = [GKind::Data, GKind::Compressed, GKind::Zero, GKind::ZeroPrealloc, GKind::Unalloc];
+    let mut enumerated = 0u64;
+    for (cb, order) in [(9u32, 6u32), (12, 4)] {
+        for refcount_last in [false, true] {
+            for holes in [false, true] {
+                for code in 0..kinds_all.len().pow(4) {
+                    let mut s = ImageSpec::new(cb, order, 8 << cb);
+                    s.kinds = vec![GKind::Unalloc; 8];
+                    let mut c = code;
+                    for g in 0..4 {
+                        s.kinds[g] = kinds_all[c % kinds_all.len()].clone();
+                        c /= kinds_all.len();
+                    }
+                    s.refcount_last = refcount_last;
+                    if holes {
+                        s.skip_host = vec![4, 6];
+                    }
+                    let img = spec::build_image(&s).bytes;
+                    if !check_image(&img).strict_ok() {
+                        continue; // builder self-check (never the case so far)
+                    }
+                    enumerated += 1;
+                    evals += 1;
+                    let case = format!("check on built image c{} r{} kinds {:?} refcount_last {} holes {}", cb, order, &s.kinds[..4], refcount_last, holes);
+                    match api_check(&img) {
+                        Ok(true) => {}
+                        Ok(false) => run.add(mk("check:api-rejects-consistent-image".into(), "Qcow2Dev::check() failed on an image the independent checker accepts".into(), case.clone())),
+                        Err(e) => run.add(mk(format!("check:api-error:{}", crate::seq::err_category(&e)), e, case.clone())),
+                    }
+                    for lc in leak_positions(&img) {
+                        let leaked = inject_leak(&img, lc);
+                        if !check_image(&leaked).leaked.iter().any(|l| l.0 == lc) {
+                            continue;
+                        }
+                        evals += 1;
+                        leak_images += 1;
+                        match api_check(&leaked) {
+                            Ok(false) => {}
+                            Ok(true) => run.add(mk("check:api-accepts-leak".into(), "Qcow2Dev::check() accepted an image with a leaked cluster".into(), format!("{} with host cluster {} leaked", case, lc))),
+                            Err(e) => run.add(mk(format!("check:api-error-on-leak:{}", crate::seq::err_category(&e)), e, format!("{} with host cluster {} leaked", case, lc))),
+                        }
+                    }
+                }
+            }
+        }
+    }
+    samples.push(format!("{} images: every assignment of {{data, compressed, zero, zero+prealloc, unallocated}} to 4 guest clusters x refcount structures first/last x holes x 2 geometries, each also with every free cluster leaked (API)", enumerated));
     let _ = std::fs::remove_dir_all(&dir);
     let cov = json!({
         "evaluations": evals,
@@ -364,6 +414,7 @@ pub fn c20() -> i32 {
         "samples": samples,
         "leak_images": leak_images,
         "consistent_images": images.len(),
+        "enumerated_kind_assignment_images": enumerated,
         "format_geometries_refused": refused,
         "exhaustive": true,
     });
